@@ -690,10 +690,20 @@ pub fn run_history(acc: &mut Acc, r: &mut Rng, steps: u64, prop: &str) {
             wd.log(format!("bond user{ui} {amt}{d}"));
             let l = wd.core.lair.clone();
             let now = wd.app.block_info().time.nanos();
+            // the model remembers since when the address has had something bonded without interruption: a bond made
+            // while nothing is bonded (first bond, or a new one after unbonding everything) restarts that clock
+            let had_nothing = query::<lm::BondedResponse, _>(&wd.app, &l, &lm::QueryMsg::Bonded { address: usr.to_string() }).map(|b| b.total_bonded.is_zero()).unwrap_or(true);
             let res = exec(&mut wd.app, &usr, &l, &lm::ExecuteMsg::Bond { asset: native(d).asset(amt) }, &[coin(amt, d)]);
             if res.is_ok() {
                 acc.count("sys.bond.ok");
-                wd.first_bond_ns.entry(usr.to_string()).or_insert(now);
+                if had_nothing {
+                    if wd.first_bond_ns.contains_key(usr.as_str()) {
+                        acc.count("sys.bond.again-after-unbonding-everything");
+                    }
+                    wd.first_bond_ns.insert(usr.to_string(), now);
+                } else {
+                    wd.first_bond_ns.entry(usr.to_string()).or_insert(now);
+                }
             } else {
                 acc.count("sys.bond.rejected");
             }
